@@ -3,6 +3,7 @@ import Pcore.Model.LoaderSeq
 import Pcore.Model.LoaderTS
 import Pcore.Model.LoaderDep
 import Pcore.Model.LoaderKey
+import Pcore.Model.LoaderStatic
 /-! Driver op for C12: `hist (tree NODE*) (steps STEP*)` — syntax and output format in harness/c12/c12.go. -/
 namespace C12
 open Sx Pcore.LoaderSeq
@@ -37,6 +38,7 @@ def treeOf (nodes : List Sexp) : Option (List (Option Nat)) :=
   let rec go (i : Nat) : List Sexp → Option (List (Option Nat))
     | [] => some []
     | .list [.atom "st"] :: rest => if i = 0 then (go 1 rest).map (none :: ·) else none
+    | .list [.atom "stw"] :: rest => if i = 0 then (go 1 rest).map (none :: ·) else none
     | .list (.atom "dep" :: _) :: rest => (go (i + 1) rest).map (none :: ·)
     | .list [.atom kind, p] :: rest => do
       let pi ← p.int?
@@ -118,18 +120,37 @@ def hasStatic : List Sexp → Bool
 /-- the core types the lines may name (the harness checks the static loader agrees) -/
 def coreNames : List String := ["integer"]
 
+/-- the names an operation mentions -/
+def opNames : OpQ → List Name
+  | .op (.load _ n) | .op (.define _ n _) | .op (.has _ n) | .op (.get _ n) | .reg n _ => [n]
+  | .op (.discover _ _) | .rr _ => []
+
 /-- the entries of the static loader among the names of the line -/
-def staticEnts (ops : List Op) : Ents :=
-  let ks := ops.filterMap fun o => match o with
-    | .load _ n | .define _ n _ | .has _ n | .get _ n =>
+def staticEnts (ops : List OpQ) : Ents :=
+  let ks := (ops.flatMap opNames).filterMap fun n =>
       if n.auth = runtimeAuthority ∧ lower n.ns = "type" ∧ coreNames.contains (lower (stripColons n.name)) then some (canon n, lower (stripColons n.name)) else none
-    | .discover _ _ => none
   (ks.eraseDups).map fun (k, nm) => (k, some (V.core nm))
 
-/-- with a static node 0: it may only be asked, never loaded through or defined in -/
-def addressOK (st : Bool) : Op → Bool
-  | .load l _ | .define l _ _ => !(st && l == 0)
+/-- with a read-only static node 0 `(st)`: it may only be asked, never loaded through or defined in -/
+def addressOK (st : Bool) : OpQ → Bool
+  | .op (.load l _) | .op (.define l _ _) | .rr l => !(st && l == 0)
   | _ => true
+
+/-- `(stw)`: the static loader as a WRITABLE node 0.  The harness then gives every name of the line a suffix `0<n>` that no
+    other line uses (what is written into the process-wide static loader stays there), so every name byte must sort above
+    `0` for the key order to be the one of the names as written here; no type-set or dependency loader in such a line -/
+def hasStaticW : List Sexp → Bool
+  | .list [.atom "stw"] :: _ => true
+  | _ => false
+
+def stwSegOK : List Char → Bool
+  | [] => false
+  | c :: r => isLetter c && r.all fun d => isLetter d || d == '_'
+
+/-- names of a `(stw)` line: `::`-separated identifiers without digits (harness: `stwName`), namespace bytes above `0` -/
+def nameBytesOK (n : Name) : Bool :=
+  (n.ns.toUTF8.toList.all fun b => b.toNat > 0x30) &&
+  (splitColonsL [] (stripColons n.name).toList).all stwSegOK
 
 def stepOf (nl : Nat) : Sexp → Option Op
   | .list [.atom "load", l, n] => do
@@ -151,6 +172,17 @@ def stepOf (nl : Nat) : Sexp → Option Op
     let l ← l.nat?
     if l < nl ∧ (p = "all" ∨ p = "qual" ∨ p = "type") then pure (.discover l (keyPred p)) else none
   | _ => none
+
+/-- the steps of a `hist` line: the operations above plus the global level -/
+def stepOfQ (nl : Nat) : Sexp → Option OpQ
+  | .list [.atom "reg", x, k] => do
+    -- px.RegisterResolvableType(alias NAME = Integer[k,k]); resolveResolvables will define it under NewTypedName(NsType, NAME)
+    let nm ← x.str?; let k ← k.nat?
+    pure (.reg { auth := runtimeAuthority, ns := "type", name := nm } (.al nm k))
+  | .list [.atom "rr", l] => do
+    let l ← l.nat?
+    if l < nl then pure (.rr l) else none
+  | e => (stepOf nl e).map .op
 
 def ansStr : Ans → String
   | .found v => "found " ++ valStr v
@@ -214,27 +246,27 @@ def exec : List Sexp → String
     | none => "bad-op"
     | some [] => "bad-op"
     | some ps =>
-      match steps.mapM (stepOf ps.length) with
+      match steps.mapM (stepOfQ ps.length) with
       | none => "bad-op"
       | some ops =>
         let st := hasStatic nodes
+        let stw := hasStaticW nodes
         match depTable nodes with
         | none => "bad-op"
         | some dps =>
+        let anyTS := (tsTable nodes).any Option.isSome
         if !(ops.all (addressOK st)) || !tsShapeOK nodes ps st || !depNodesOK nodes ps dps then "bad-op"
+        else if stw && (anyTS || dps.any Option.isSome || !((ops.flatMap opNames).all nameBytesOK)) then "bad-op"
         else
           let s0 := if st then (Sys.init ps).setEnts 0 (staticEnts ops) else Sys.init ps
           -- every discovery predicate is restricted to the names of the line (with a type-set loader: also to their forms
           -- relative to the type set), as in the harness
-          let anyTS := (tsTable nodes).any Option.isSome
-          let univ := (ops.flatMap fun o => match o with
-            | .load _ n | .define _ n _ | .has _ n | .get _ n => if anyTS then relForms 8 n else [n]
-            | .discover _ _ => []).map canon
+          let univ := ((ops.flatMap opNames).flatMap fun n => if anyTS then relForms 8 n else [n]).map canon
           let ops := ops.map fun o => match o with
-            | .discover l p => Op.discover l (fun k => univ.contains k && p k)
+            | .op (.discover l p) => OpQ.op (.discover l (fun k => univ.contains k && p k))
             | o => o
-          let (s, as) := if dps.any Option.isSome then runD dps s0 ops else runT (tsTable nodes) s0 ops
-          " ; ".intercalate (as.map ansStr) ++ " |" ++ dump s
+          let (q, as) := runQ (tsTable nodes) dps { sys := s0, queue := [] } ops
+          " ; ".intercalate (as.map ansStr) ++ " |" ++ dump q.sys
   | _ => "bad-op"
 
 end C12
